@@ -521,6 +521,7 @@ func (m *mbModel) fnOf(n ast.Node) *kit.Func {
 }
 
 const mbExcEvent = "exc:"
+const mbMapperTag = "mapper-response"
 
 // hook installs the call observer of a scenario evaluation: the exception
 // mapper is never evaluated in line, a call of it is recorded as the event
@@ -537,7 +538,7 @@ func (m *mbModel) hook(ip *kit.Interp, user func(call *ast.CallExpr, args []kit.
 			} else if args[0].K == 'n' {
 				ev = mbExcEvent + "nil"
 			}
-			return ev, []kit.IVal{{K: 'b'}, {K: 'u'}, {K: 'n'}}
+			return ev, []kit.IVal{{K: 'b'}, {K: 'u', Tag: mbMapperTag}, {K: 'n'}}
 		}
 		if user != nil {
 			return user(call, args)
@@ -549,11 +550,9 @@ func (m *mbModel) hook(ip *kit.Interp, user func(call *ast.CallExpr, args []kit.
 // exitExc classifies an exit of the request processor: it returns the
 // mapper's results, and the mapper was given the constant code / an error value.
 func (m *mbModel) exitExc(e kit.IExit) (code int64, isErr, ok bool) {
-	if e.Ret == nil || len(e.Ret.Results) != 1 {
-		return 0, false, false
-	}
-	call, isCall := ast.Unparen(e.Ret.Results[0]).(*ast.CallExpr)
-	if !isCall || m.fnOf(call).CalleeFunc(call) != m.Mapper {
+	// the response returned is the one the mapper built (possibly handed up
+	// through the module functions that serve the arm)
+	if len(e.Vals) < 2 || e.Vals[1].Tag != mbMapperTag {
 		return 0, false, false
 	}
 	for i := len(e.Trace) - 1; i >= 0; i-- {
